@@ -20,7 +20,9 @@ DVal(d) == (CHOOSE i \in 1..10 : DigitChars[i] = d) - 1
 
 RECURSIVE Size(_, _, _, _)
 \* digits from position p: <<value, next position, digit count>>
-Size(s, p, acc, n) == IF p <= Len(s) /\ s[p] \in Digit /\ n < 11 THEN Size(s, p + 1, acc * 10 + DVal(s[p]), n + 1) ELSE <<acc, p, n>>
+\* (the value saturates below TLC's 32-bit integers; every input here is far shorter than that)
+Size(s, p, acc, n) == IF p <= Len(s) /\ s[p] \in Digit /\ n < 11
+                      THEN Size(s, p + 1, IF acc >= 100000000 THEN 999999999 ELSE acc * 10 + DVal(s[p]), n + 1) ELSE <<acc, p, n>>
 
 RECURSIVE SkipWs(_, _)
 SkipWs(s, p) == IF p <= Len(s) /\ s[p] \in Ws THEN SkipWs(s, p + 1) ELSE p
